@@ -1,6 +1,9 @@
-(* C09 — server level: what Start binds is the list of prefixed routes, so every theorem
-   about [router_of nf na regs] applies with regs := server_routes groups. *)
-From Coq Require Import List String Ascii Bool ZArith.
+(* C09 — server level.  Whatever sequence of AddRoutes / AddRoute / Start events is played on
+   whatever number of servers, with the user's tables (slices) re-used and sub-sliced at will:
+   the user's tables are never written, and what Start of server s binds is exactly the union of
+   the prefix-extended tables mounted on s before, as the user WROTE them ([spec_regs]).  So
+   every theorem about [router_of nf na regs] applies with regs := spec_regs ... *)
+From Coq Require Import List String Ascii Bool ZArith Lia.
 From GZ Require Import C09.Model C09.Spec C09.ServerModel C09.Proofs.
 Import ListNotations.
 Open Scope string_scope.
@@ -63,13 +66,11 @@ Proof.
     rewrite S in *. rewrite IH by exact A'. rewrite <- app_assoc. reflexivity.
 Qed.
 
-Lemma L_server_routes_are_prefixed_routes : forall nf na cors gs,
-  let regs := server_routes gs in
-  match server_start nf na cors gs with
+(* binding a list of routes on a new router *)
+Lemma L_bind_regs : forall nf na regs,
+  match bind_routes (new_router nf na) regs with
   | Started r =>
-    r = router_of nf (na || cors) regs /\
-    all_ok (reg_results [] regs) /\
-    table_of regs = map to_route regs
+    r = router_of nf na regs /\ all_ok (reg_results [] regs) /\ table_of regs = map to_route regs
   | StartFailed e =>
     e <> RegOk /\
     exists pre g post, regs = (pre ++ g :: post)%list /\
@@ -77,26 +78,26 @@ Lemma L_server_routes_are_prefixed_routes : forall nf na cors gs,
       reg_spec (table_of pre) (rmethod g) (rpath g) = e
   end.
 Proof.
-  intros nf na cors gs regs. unfold server_start. fold regs.
-  pose proof (bind_routes_spec regs (new_router nf (na || cors))) as B.
-  destruct (bind_routes (new_router nf (na || cors)) regs) as [r|e].
+  intros nf na regs.
+  pose proof (bind_routes_spec regs (new_router nf na)) as B.
+  destruct (bind_routes (new_router nf na) regs) as [r|e].
   - destruct B as [E A]. split; [exact E|].
-    rewrite (L_registration_history nf (na || cors) regs) in A. split; [exact A|].
+    rewrite (L_registration_history nf na regs) in A. split; [exact A|].
     unfold table_of. rewrite (all_ok_table regs [] A). reflexivity.
   - destruct B as [N [pre [g [post [E [A S]]]]]]. split; [exact N|]. exists pre, g, post.
-    split; [exact E|]. rewrite (L_registration_history nf (na || cors) pre) in A. split; [exact A|].
+    split; [exact E|]. rewrite (L_registration_history nf na pre) in A. split; [exact A|].
     destruct g as [m p h].
-    pose proof (L_registration_rejects nf (na || cors) pre m p h) as R. cbn in R.
+    pose proof (L_registration_rejects nf na pre m p h) as R. cbn in R.
     destruct R as [R _]. unfold handle_reg in S. cbn [rmethod rpath rhandler] in *.
     unfold router_of in R. congruence.
 Qed.
 
 (* Start succeeds iff the route list prescribes no rejection *)
-Lemma L_start_iff_all_ok : forall nf na cors gs,
-  (exists r, server_start nf na cors gs = Started r) <-> all_ok (reg_results [] (server_routes gs)).
+Lemma L_bind_iff_all_ok : forall nf na regs,
+  (exists r, bind_routes (new_router nf na) regs = Started r) <-> all_ok (reg_results [] regs).
 Proof.
-  intros nf na cors gs. pose proof (L_server_routes_are_prefixed_routes nf na cors gs) as S. cbn zeta in S.
-  destruct (server_start nf na cors gs) as [r|e].
+  intros nf na regs. pose proof (L_bind_regs nf na regs) as S.
+  destruct (bind_routes (new_router nf na) regs) as [r|e].
   - split; [intros _; apply S | intros _; eauto].
   - split; [intros [r E]; discriminate|]. intro A. exfalso.
     destruct S as [N [pre [g [post [E [_ R]]]]]]. rewrite E in A.
@@ -127,38 +128,239 @@ Proof.
   unfold clean_path. rewrite Ascii.eqb_refl. rewrite split_app. reflexivity.
 Qed.
 
-(* the full response case table, transferred to a started server: the table is the list of
-   prefixed routes *)
-Lemma L_server_allowed_cases : forall nf na cors gs r m p segs resp,
-  server_start nf na cors gs = Started r ->
-  clean_path p = Some segs ->
-  In resp (serve_allowed r m p) ->
-  resp_ok (map to_route (server_routes gs)) nf (na || cors) m segs resp.
+(* ================================================= the registration sequence, today's code *)
+
+Lemma apply_prefixes_cons : forall o os r,
+  apply_prefixes (o :: os) r =
+  apply_prefixes os (match o with OPrefix g => prefix_reg g r | OOther => r end).
+Proof. reflexivity. Qed.
+
+(* the options of one AddRoutes call: the store is not written, and the group finally holds the
+   routes it was given with every prefix applied in order *)
+Lemma apply_opts_real : forall os st r,
+  fst (apply_opts opt_real st r os) = st /\
+  deref st (snd (apply_opts opt_real st r os)) = map (apply_prefixes os) (deref st r).
 Proof.
-  intros nf na cors gs r m p segs resp S CP H.
-  pose proof (L_server_routes_are_prefixed_routes nf na cors gs) as P. cbn zeta in P.
-  rewrite S in P. destruct P as [E [_ T]]. subst r. rewrite <- T.
-  eapply L_allowed_cases; eassumption.
+  unfold apply_opts. induction os as [|o os IH]; intros st r.
+  - cbn. split; [reflexivity|]. rewrite map_id. reflexivity.
+  - cbn [fold_left fst snd]. destruct o as [g|]; cbn [opt_real fst snd].
+    + destruct (IH st (RFresh (map (prefix_reg g) (deref st r)))) as [A B]. split; [exact A|].
+      rewrite B. cbn [deref]. rewrite map_map. apply map_ext. intro x. reflexivity.
+    + destruct (IH st r) as [A B]. split; [exact A|]. rewrite B. apply map_ext. intro x. reflexivity.
+Qed.
+
+Lemma deref_mount_arg : forall st m, deref st (mount_arg st m) = written st m.
+Proof. intros st m. unfold mount_arg, written. destruct (mmw m); reflexivity. Qed.
+
+Lemma single_fold_real : forall os st (f : store * list rref -> reg -> store * list rref),
+  (forall acc x, f acc x = (fst (apply_opts opt_real (fst acc) (RFresh [x]) os),
+                            (snd acc ++ [snd (apply_opts opt_real (fst acc) (RFresh [x]) os)])%list)) ->
+  forall l gs0,
+  fst (fold_left f l (st, gs0)) = st /\
+  exists gs', snd (fold_left f l (st, gs0)) = (gs0 ++ gs')%list /\
+              flat_map (deref st) gs' = map (apply_prefixes os) l.
+Proof.
+  intros os st f Hf. induction l as [|x l IH]; intro gs0.
+  - cbn. split; [reflexivity|]. exists []. rewrite app_nil_r. split; reflexivity.
+  - cbn [fold_left]. rewrite Hf. cbn [fst snd].
+    destruct (apply_opts_real os st (RFresh [x])) as [A B]. rewrite A.
+    destruct (IH (gs0 ++ [snd (apply_opts opt_real st (RFresh [x]) os)])%list) as [S [gs' [E F]]].
+    split; [exact S|]. exists (snd (apply_opts opt_real st (RFresh [x]) os) :: gs').
+    split; [rewrite E, <- app_assoc; reflexivity|].
+    cbn [flat_map map]. rewrite B, F. reflexivity.
+Qed.
+
+(* one AddRoutes call / one series of AddRoute calls *)
+Lemma do_mount_real : forall st m,
+  fst (do_mount opt_real st m) = st /\
+  flat_map (deref st) (snd (do_mount opt_real st m)) = mount_regs st m.
+Proof.
+  intros st m. unfold do_mount, mount_regs. destruct (msingle m).
+  - destruct (single_fold_real (mopts m) st _ (fun acc x => eq_refl) (deref st (mount_arg st m)) []) as [S [gs' [E F]]].
+    split; [exact S|]. rewrite E. cbn [app]. rewrite F, deref_mount_arg. reflexivity.
+  - cbn [fst snd]. destruct (apply_opts_real (mopts m) st (mount_arg st m)) as [A B].
+    split; [exact A|]. cbn [flat_map]. rewrite app_nil_r, B, deref_mount_arg. reflexivity.
+Qed.
+
+Lemma mounts_of_app : forall s a b, mounts_of s (a ++ b) = (mounts_of s a ++ mounts_of s b)%list.
+Proof.
+  induction a as [|e a IH]; intro b; [reflexivity|]. destruct e as [m|s']; cbn.
+  - destruct (Nat.eqb (msrv m) s); cbn; rewrite IH; reflexivity.
+  - apply IH.
+Qed.
+
+Lemma spec_regs_app : forall tables s a b,
+  spec_regs tables (a ++ b) s = (spec_regs tables a s ++ spec_regs tables b s)%list.
+Proof. intros. unfold spec_regs. rewrite mounts_of_app, flat_map_app. reflexivity. Qed.
+
+Lemma engine_regs_app : forall st gs s k new,
+  engine_regs st (gs ++ map (fun g => (k, g)) new) s =
+  (engine_regs st gs s ++ (if Nat.eqb k s then flat_map (deref st) new else []))%list.
+Proof.
+  intros st gs s k new. unfold engine_regs. rewrite filter_app, flat_map_app. f_equal.
+  induction new as [|g new IH]; cbn.
+  - destruct (Nat.eqb k s); reflexivity.
+  - destruct (Nat.eqb k s) eqn:E; cbn; [rewrite IH; reflexivity | exact IH].
+Qed.
+
+(* how every Start ends, from what the user wrote *)
+Fixpoint starts_from (cfgs : list scfg) (tables : store) (pre evs : list event) : list (nat * start_result) :=
+  match evs with
+  | [] => []
+  | e :: evs' =>
+    (match e with
+     | EStart s => [(s, start_server cfgs s (spec_regs tables pre s))]
+     | EMount _ => []
+     end ++ starts_from cfgs tables (pre ++ [e]) evs')%list
+  end.
+
+Lemma starts_from_snoc : forall cfgs tables evs pre e,
+  starts_from cfgs tables pre (evs ++ [e]) =
+  (starts_from cfgs tables pre evs ++
+   match e with
+   | EStart s => [(s, start_server cfgs s (spec_regs tables (pre ++ evs) s))]
+   | EMount _ => []
+   end)%list.
+Proof.
+  induction evs as [|e0 evs IH]; intros pre e.
+  - cbn. rewrite !app_nil_r. reflexivity.
+  - cbn [app starts_from]. rewrite IH, <- !app_assoc. reflexivity.
+Qed.
+
+Lemma run_snoc : forall sem cfgs tables evs e,
+  run sem cfgs tables (evs ++ [e]) = step sem cfgs (run sem cfgs tables evs) e.
+Proof. intros. unfold run. rewrite fold_left_app. reflexivity. Qed.
+
+(* THE registration theorem: for every sequence of events *)
+Lemma L_run_real : forall cfgs tables evs,
+  let w := run opt_real cfgs tables evs in
+  wstore w = tables /\
+  (forall s, engine_regs tables (wgroups w) s = spec_regs tables evs s) /\
+  wstarts w = starts_from cfgs tables [] evs.
+Proof.
+  intros cfgs tables evs. induction evs as [|e evs IH] using rev_ind; cbn zeta.
+  - cbn. repeat split.
+  - rewrite run_snoc. cbn zeta in IH. destruct IH as [S [G W]].
+    set (w := run opt_real cfgs tables evs) in *. destruct e as [m|s0]; cbn [step].
+    + destruct (do_mount_real (wstore w) m) as [A B]. rewrite S in A, B.
+      cbn [wstore wgroups wstarts]. rewrite S. split; [exact A|]. split.
+      * intro s. rewrite engine_regs_app, G, spec_regs_app. f_equal.
+        unfold spec_regs at 1. cbn [mounts_of]. destruct (Nat.eqb (msrv m) s); cbn [flat_map].
+        -- rewrite app_nil_r. exact B.
+        -- reflexivity.
+      * rewrite starts_from_snoc, app_nil_r. exact W.
+    + cbn [wstore wgroups wstarts]. split; [exact S|]. split.
+      * intro s. rewrite spec_regs_app. unfold spec_regs at 2. cbn. rewrite app_nil_r. apply G.
+      * rewrite starts_from_snoc, W, S, G. reflexivity.
+Qed.
+
+(* the first Start of server s binds the mounts made on s before it *)
+Lemma start_of_starts_from : forall cfgs tables s evs pre,
+  start_of (starts_from cfgs tables pre evs) s =
+  if has_start s evs
+  then Some (start_server cfgs s (spec_regs tables (pre ++ before_start s evs) s))
+  else None.
+Proof.
+  intros cfgs tables s. induction evs as [|e evs IH]; intro pre; [reflexivity|].
+  destruct e as [m|s']; cbn [starts_from has_start before_start app].
+  - rewrite IH, <- app_assoc. reflexivity.
+  - cbn [start_of]. destruct (Nat.eqb s' s) eqn:E; cbn [orb].
+    + rewrite app_nil_r. apply Nat.eqb_eq in E. subst s'. reflexivity.
+    + rewrite IH, <- app_assoc. reflexivity.
+Qed.
+
+Lemma L_start_is_spec : forall cfgs tables evs s,
+  start_of (wstarts (run opt_real cfgs tables evs)) s =
+  if has_start s evs then Some (spec_start cfgs tables evs s) else None.
+Proof.
+  intros cfgs tables evs s. destruct (L_run_real cfgs tables evs) as [_ [_ W]]. rewrite W.
+  rewrite start_of_starts_from. reflexivity.
+Qed.
+
+(* nobody ever writes into the route tables the user holds *)
+Lemma L_tables_untouched : forall cfgs tables evs,
+  wstore (run opt_real cfgs tables evs) = tables.
+Proof. intros. apply (L_run_real cfgs tables evs). Qed.
+
+(* Server.Routes() at any moment = the union of the prefix-extended tables mounted so far *)
+Lemma L_routes_are_spec : forall cfgs tables evs s,
+  let w := run opt_real cfgs tables evs in
+  engine_regs (wstore w) (wgroups w) s = spec_regs tables evs s.
+Proof. intros cfgs tables evs s w. destruct (L_run_real cfgs tables evs) as [S [G _]]. unfold w. rewrite S. apply G. Qed.
+
+(* what is mounted on the other servers, and when they start, is irrelevant for server s *)
+Definition concerns (s : nat) (e : event) : bool :=
+  match e with EMount m => Nat.eqb (msrv m) s | EStart s' => Nat.eqb s' s end.
+
+Lemma L_other_servers_irrelevant : forall tables evs s,
+  spec_regs tables evs s = spec_regs tables (filter (concerns s) evs) s.
+Proof.
+  intros tables evs s. unfold spec_regs. f_equal.
+  induction evs as [|e evs IH]; [reflexivity|]. destruct e as [m|s']; cbn.
+  - destruct (Nat.eqb (msrv m) s) eqn:E; cbn; [rewrite E, IH; reflexivity | exact IH].
+  - destruct (Nat.eqb s' s); cbn; exact IH.
+Qed.
+
+(* ------------------------------------------ a started server answers as the user's tables say *)
+
+Lemma L_server_dispatch : forall cfgs tables evs s r,
+  start_of (wstarts (run opt_real cfgs tables evs)) s = Some (Started r) ->
+  let c := nth s cfgs default_cfg in
+  let regs := spec_regs tables (before_start s evs) s in
+  r = router_of (sc_nf c) (sc_na c || sc_cors c) regs /\
+  all_ok (reg_results [] regs) /\
+  table_of regs = map to_route regs /\
+  forall m p segs resp, clean_path p = Some segs -> In resp (serve_allowed r m p) ->
+    resp_ok (map to_route regs) (sc_nf c) (sc_na c || sc_cors c) m segs resp.
+Proof.
+  intros cfgs tables evs s r H c regs. rewrite L_start_is_spec in H.
+  destruct (has_start s evs); [|discriminate]. inversion H as [H1]. clear H.
+  unfold spec_start, start_server in H1. fold c regs in H1.
+  pose proof (L_bind_regs (sc_nf c) (sc_na c || sc_cors c) regs) as B. rewrite H1 in B.
+  destruct B as [E [A T]]. split; [exact E|]. split; [exact A|]. split; [exact T|].
+  intros m p segs resp CP I. rewrite <- T. subst r. eapply L_allowed_cases; eassumption.
+Qed.
+
+Lemma L_server_start_fails : forall cfgs tables evs s e,
+  start_of (wstarts (run opt_real cfgs tables evs)) s = Some (StartFailed e) ->
+  let regs := spec_regs tables (before_start s evs) s in
+  e <> RegOk /\
+  exists pre g post, regs = (pre ++ g :: post)%list /\ all_ok (reg_results [] pre) /\
+                     reg_spec (table_of pre) (rmethod g) (rpath g) = e.
+Proof.
+  intros cfgs tables evs s e H regs. rewrite L_start_is_spec in H.
+  destruct (has_start s evs); [|discriminate]. inversion H as [H1]. clear H.
+  unfold spec_start, start_server in H1. fold regs in H1.
+  set (c := nth s cfgs default_cfg) in *.
+  pose proof (L_bind_regs (sc_nf c) (sc_na c || sc_cors c) regs) as B. rewrite H1 in B. exact B.
+Qed.
+
+Lemma L_server_starts_iff : forall cfgs tables evs s, has_start s evs = true ->
+  ((exists r, start_of (wstarts (run opt_real cfgs tables evs)) s = Some (Started r)) <->
+   all_ok (reg_results [] (spec_regs tables (before_start s evs) s))).
+Proof.
+  intros cfgs tables evs s HS. rewrite L_start_is_spec, HS. unfold spec_start, start_server.
+  set (c := nth s cfgs default_cfg). rewrite <- (L_bind_iff_all_ok (sc_nf c) (sc_na c || sc_cors c)).
+  split; intros [r E]; exists r; congruence.
 Qed.
 
 (* rest.WithCors(): every OPTIONS request is answered 204 without consulting the router, and
    where the router alone would answer 405 + Allow the server answers 404 *)
-Lemma L_cors_behaviour : forall nf na gs r m p segs,
-  server_start nf na true gs = Started r ->
+Lemma L_cors_behaviour : forall nf na regs r m p segs,
+  bind_routes (new_router nf (na || true)) regs = Started r ->
   clean_path p = Some segs ->
-  let T := map to_route (server_routes gs) in
+  let T := map to_route regs in
   sserve true r "OPTIONS" p = SCors204 /\
   (m <> "OPTIONS" -> no_own T m segs ->
    (exists t, In t T /\ tm t <> m /\ matches (tpat t) segs) ->
    sserve true r m p = SResp RNotFound).
 Proof.
-  intros nf na gs r m p segs S CP T. split; [reflexivity|].
+  intros nf na regs r m p segs S CP T. split; [reflexivity|].
   intros NM NO EX. unfold sserve. rewrite (neq_eqb_false _ _ NM). cbn [andb].
-  pose proof (L_server_routes_are_prefixed_routes nf na true gs) as P. cbn zeta in P.
-  rewrite S in P. destruct P as [E [_ TT]]. subst r.
-  pose proof (L_not_allowed_iff nf (na || true) (server_routes gs) m p segs CP) as NA. cbn zeta in NA.
+  pose proof (L_bind_regs nf (na || true) regs) as P. rewrite S in P. destruct P as [E [_ TT]]. subst r.
+  pose proof (L_not_allowed_iff nf (na || true) regs m p segs CP) as NA. cbn zeta in NA.
   rewrite TT in NA. destruct (proj2 NA (conj NO EX)) as [[allow A]|A].
-  - exfalso. pose proof (L_serve_cases nf (na || true) (server_routes gs) m p segs CP) as R.
+  - exfalso. pose proof (L_serve_cases nf (na || true) regs m p segs CP) as R.
     rewrite A in R. cbn in R. destruct R as [F _]. rewrite orb_true_r in F. discriminate.
   - rewrite A. reflexivity.
 Qed.
